@@ -54,6 +54,7 @@ type Pointer struct {
 	Glob  string
 	RootT types.Type
 	Path  []PStep
+	SliceT types.Type // RElem: the (possibly named) slice type indexed
 }
 
 func (p *Pointer) elemType() types.Type {
@@ -127,6 +128,7 @@ type State struct {
 	dead    bool
 	strKeys []Term
 	epoch   int
+	skipEnter bool
 }
 
 func (f *Frame) clone() *Frame {
@@ -364,7 +366,30 @@ func (st *State) load(p *Pointer) Value {
 	t, T2 := st.project(root, T, rest)
 	v := Value{T: T2, Tm: t}
 	st.assumeTypeInv(v)
+	st.assumeRegion(p, v)
 	return v
+}
+
+// assumeRegion: region discipline — the backing array of a slice stored in a struct field or a
+// global belongs to that field's region; arrays of different regions are disjoint.
+func (st *State) assumeRegion(p *Pointer, v Value) {
+	if v.T == nil || !isSlice(v.T) {
+		return
+	}
+	var cls string
+	switch {
+	case p.Kind == RGlobal && len(p.Path) == 0:
+		cls = p.Glob
+	case p.Kind == RObj && len(p.Path) == 1 && !p.Path[0].IsIdx:
+		n, _ := st.eng().fieldHeapName(p.RootT, p.Path[0].Field)
+		cls = n
+	default:
+		return
+	}
+	e := st.eng()
+	id := e.regionID(cls)
+	e.assumes["region discipline: backing arrays of slices held in different struct fields / globals are disjoint (assumed at loads, not checked at stores)"] = true
+	st.assume(Implies(Ne(SlRef(v.Tm), IntLit(0)), Eq(st.uf("region", SInt, SlRef(v.Tm)), IntLit(int64(id)))))
 }
 
 func (st *State) assumeTypeInv(v Value) {
